@@ -13,7 +13,14 @@ const c14Variant = "matrix"
 
 func c14Key(cm *connMatrix) string {
 	var sb strings.Builder
-	fmt.Fprintf(&sb, "%d/%d:", cm.row, cm.column)
+	// every field that decides the future of the registry is part of the state: the cursor, the
+	// compaction switch (a stale one changes what the next removal does) and the per-row counts
+	fmt.Fprintf(&sb, "%d/%d/%v:", cm.row, cm.column, cm.disableCompact)
+	for r, n := range cm.connCounts {
+		if n != 0 {
+			fmt.Fprintf(&sb, "n%d=%d,", r, n)
+		}
+	}
 	for r, row := range cm.table {
 		if row == nil {
 			continue
